@@ -327,6 +327,67 @@ func checkC13(c *Ctx, r *Report) {
 				fmt.Sprintf("destination is the fresh Info's overridable part=%v; source is c.Overrides[<requested format>]=%v (a different key would let another format's block take effect)", dstOK, srcOK))
 		}
 	}
+	// the override block takes effect through the merge alone: Get (and its
+	// helpers) read no field of the block themselves - a hand-made selection
+	// ("take the block's key id when it is set") has its own idea of "set"
+	// (non-nil) that differs from the merge's (non-empty)
+	{
+		var blocks []ssa.Value
+		for _, fn := range getFamily(c, get) {
+			forEachInstr(fn, func(in ssa.Instruction) {
+				switch x := in.(type) {
+				case *ssa.Extract:
+					if lk, ok := x.Tuple.(*ssa.Lookup); ok && x.Index == 0 {
+						if ld, ok := lk.X.(*ssa.UnOp); ok {
+							if pp, _ := addrPath(ld.X); pp == "Overrides" {
+								blocks = append(blocks, x)
+							}
+						}
+					}
+				case *ssa.Lookup:
+					if !x.CommaOk {
+						if ld, ok := x.X.(*ssa.UnOp); ok {
+							if pp, _ := addrPath(ld.X); pp == "Overrides" {
+								blocks = append(blocks, x)
+							}
+						}
+					}
+				}
+			})
+		}
+		// parameters of helpers that receive the block
+		for i := 0; i < len(blocks) && i < 16; i++ {
+			for _, ref := range *blocks[i].Referrers() {
+				call, ok := ref.(*ssa.Call)
+				if !ok {
+					continue
+				}
+				sc := call.Call.StaticCallee()
+				if sc == nil || sc.Blocks == nil || !c.isModuleFunc(sc) {
+					continue
+				}
+				for j, a := range call.Call.Args {
+					if a == blocks[i] && j < len(sc.Params) {
+						blocks = append(blocks, sc.Params[j])
+					}
+				}
+			}
+		}
+		var direct ssa.Instruction
+		for _, b := range blocks {
+			for _, ref := range *b.Referrers() {
+				if fa, ok := ref.(*ssa.FieldAddr); ok && direct == nil {
+					direct = fa
+				}
+			}
+		}
+		if direct != nil {
+			r.Fail("S-get", "the override block is consumed by the merge only", c.instrPos(direct), "a field of the override block is read directly here: whether the block \"sets\" a field is then decided by this code and not by the merge (non-empty), so an explicitly empty value in the block can displace the base value")
+		} else {
+			r.Check(len(blocks) > 0, "S-get", "the override block is consumed by the merge only", c.pos(get.Pos()), fmt.Sprintf("%d value(s) denote the looked-up block; none of their fields is read outside mergo.Merge", len(blocks)))
+		}
+	}
+
 	// no-override path returns the base copy
 	okBase := false
 	for _, b := range get.Blocks {
